@@ -141,3 +141,17 @@ Fixpoint resync_any (guard : bool) (m : lmode) (hist : list sany) (d : dentry) :
   | [] => (d, false)
   | e :: h => let (d1, w1) := sync_any guard m e d in let (d2, w2) := resync_any guard m h d1 in (d2, w1 || w2)
   end.
+
+(* ---------- what a DRY run reports for the entry (`fix: a dry run reports a followed symbolic link as it would be copied`) ----------
+   In a dry run every transfer returns nothing; the report arms ask [left_out] -- Transferrer::symlink_is_left_out: skip mode, or follow
+   mode with a target that does not resolve to a file -- instead of reading "nothing returned" as "nothing copied". *)
+Definition left_out (m : lmode) (s : slink) : bool :=
+  match m with LSkip => true | LPreserve => false | LFollow => negb (produced m s) end.
+
+Definition dry_link_event (m : lmode) (s : slink) (d : dentry) : levent :=
+  let dest_was_link := match d with DLink _ => true | _ => false end in
+  match plan_link m s d with
+  | LkSkip => EvSkip
+  | LkCreate => if left_out m s then EvSkip else EvCreate
+  | LkUpdate => if left_out m s && (match m with LSkip => true | _ => false end || negb dest_was_link) then EvSkip else EvUpdate
+  end.
